@@ -116,10 +116,7 @@ theorem mirror (cfg : Cfg) (hnd : cfg.dryRun = false) (hd : cfg.delete = true) (
     have hes : e ∈ scanFilter cfg scan := by rw [hall]; exact he
     have ep := entryPost_of_exit_zero hnd flt scan dst n hu (fun _ => ⟨hc, hroot⟩) hino hes hok
     cases hk : e.kind with
-    | dir =>
-      cases hg : dst.get? e.rel with
-      | none => rw [ep.dir_new hk (hnr e he) hg]; simp
-      | some v => rw [ep.dir_old hk (by rw [hg]; simp), hg]; simp
+    | dir => rw [ep.dir hk (hnr e he)]; simp
     | file m k => obtain ⟨d, h1, _⟩ := ep.file m k hk; rw [h1]; simp
     | symlink text tgt => rw [ep.link_preserve text tgt hk hl]; simp
 
